@@ -300,6 +300,7 @@ class Run:
         self.model = Model(self.keybins)
         self.rows: list[set] = [set() for _ in range(NNODES)]
         self.crafted: set[int] = set()        # seq numbers of datagrams the harness sent on a node's behalf
+        self.attr_override: dict = {}           # (answering node, destination address) -> key the answer is really given to
         self.checked = 0                      # log entries already judged as emissions
         self.viols: list[Violation] = []
         self.flags: set[str] = set()
@@ -398,7 +399,7 @@ class Run:
             if msg_id == 2:
                 self.judge_attest(y, p, payload.attestation)
             elif msg_id == 4:
-                self.judge_tokens(y, p, payload.tokens, "on_request_missing")
+                self.judge_tokens(y, self.attr_override.get((y, tuple(fl.dst)), p), payload.tokens, "on_request_missing")
             elif msg_id == 1:
                 self.judge_tokens(y, p, payload.tokens, "disclose")
 
@@ -586,6 +587,19 @@ class Run:
             _, x, y, known = op
             self.send_as(x, y, pl.RequestMissingPayload(KNOWN[known]))
             self.pump()
+        elif kind == "reqmiss_via":
+            # a request for tokens signed by x reaches y from the address of z (another identity on z's host, two hosts
+            # behind one NAT address, an address taken over): what y answers is handed out to key x, wherever it is sent
+            _, x, y, known, z = op
+            zaddr = next(a for a, i in self.addr_idx.items() if i == z)
+            yaddr = next(a for a, i in self.addr_idx.items() if i == y)
+            packet = self.ov[x].ezr_pack(pl.RequestMissingPayload.msg_id, pl.RequestMissingPayload(KNOWN[known]))
+            fl = self.net.inject(zaddr, yaddr, packet, note="request for tokens from a shared address")
+            self.crafted.add(fl.seq)
+            self.attr_override[(y, tuple(zaddr))] = x
+            self.flags.add("shared_address")
+            self.pump()
+            self.attr_override.clear()
         elif kind == "replay":
             log = self.net.log
             if log:
@@ -819,6 +833,10 @@ def family_e2(quick: bool):
         ops += [["adv", S1, S2, (i + 1) % 3, 1, 0] for i in range(k2)]
         ops.append(["reqmiss", p, S1, known])
         yield ops
+    for k1, p, known in itertools.product((1, 3), (S2, M), (0, 1)):
+        # the unpermitted key asks from the permitted attester's address
+        yield [["reg", A, 0, 0, S1, 0]] + [["adv", S1, A, i % 3, 0, 0] for i in range(k1)] + \
+            [["reqmiss_via", p, S1, known, A], ["reqmiss", A, S1, 0]]
     if not quick:
         for k1, p in itertools.product((11, 12, 21), (A, S2, M)):
             ops = [["reg", A, 0, 0, S1, 0]] + [["adv", S1, A, i % 4, 0, 0] for i in range(k1)]
